@@ -51,7 +51,7 @@ pub const FRAGS: &[&str] = &[
     "%sysget(", "%length(", "%lowcase(", "%qlowcase(", "%left(", "%qleft(", "%trim(", "%qtrim(", "%datatyp(", "%compstor(", "%kscan(", "%ksubstr(", "%kupcase(",
     "%qupcase(", "%sysprod(", "%symglobl(", "%symlocal(", "%sysmacexec(", "%sysmacexist(", "%validchs(", "%kindex(", "%klength(", "%kverify(", "%kcmpres(", "%kleft(", "%ktrim(", "%klowcase(",
     "datalines;", "cards;", "lines;", "datalines4;", "cards4;", "lines4;", "datalines", "cards", "CARDS ;", "DataLines4 ;", ";;;;", ";;",
-    "$f.", "$", "$12.", "$é3.2", "$char10.", "eq", "ne", "and", "or", "not", "in", "lt", "le", "gt", "ge", "EQ", "Ne", "AND", "IN",
+    "$f.", "$", "$12.", "$é3.2", "$char10.", "$fmtü5.", "$f𠀀.", "$тест.", "$a€b12.3", "fmtü5.", "eq", "ne", "and", "or", "not", "in", "lt", "le", "gt", "ge", "EQ", "Ne", "AND", "IN",
     "+", "-", "<", ">", "<=", ">=", "<>", "><", "|", "||", "!!", "¦¦", "^=", "~=", "¬=", "^", "~", "¬", "∘", "#", "=*", "?", "@", "{", "}", "[", "]", "!",
     "%'", "%\"", "%%", "%(", "%)", "%=", "%^", "%~=", "%/", "'41'x", "\"41\"x", "'4'x", "'4,1'x", "'+1'x", "'ab'X", "'a'b", "'a'd", "\"a\"dt", "'a'n", "'a't", "\"&a\"d", "\"&a\"x",
     "d", "dt", "n", "t", "b", "é", "é1", "😀", "\u{a0}", "\u{2028}", ".", "data", "run", "proc", "_null_", "_all_", "corr", "readonly", "/ readonly ", "input", "put",
